@@ -59,32 +59,57 @@ def chainEnds (h : Dom.Heap) : Nat → Nat → Bool
     | none => true
     | some p => chainEnds h f p
 
-def dumpModel (asIs : Bool) (h : Dom.Heap) (reg : List Nat) (e : Option Dom.Err) : String :=
+def boolBit (b : Bool) : String := if b then "1" else "0"
+
+/-- everything reachable from `s` through child lists and attribute-held fragments -/
+def reachBelow (h : Dom.Heap) (withAttr2 : Bool) (s : Nat) : List Nat :=
+  canonOrder (fun n => Dom.childList h n ++ (h.attr n).toList ++ (if withAttr2 then (h.attr2 n).toList else [])) (Dom.fuelOf h) [s]
+
+def adjacentText (h : Dom.Heap) : List Nat → Bool
+  | a :: b :: rest => (h.kind a == .text && h.kind b == .text) || adjacentText h (b :: rest)
+  | _ => false
+
+/-- no two adjacent text nodes in any child list below `s` (attribute-held fragments included) -/
+def noAdjacentBelow (h : Dom.Heap) (s : Nat) : Bool :=
+  (reachBelow h true s).all (fun n => !adjacentText h (Dom.childList h n))
+
+/-- clone and original share no node (child lists and `self` fragments) -/
+def disjointBelow (h : Dom.Heap) (v s : Nat) : Bool :=
+  let rs := reachBelow h false s
+  (reachBelow h false v).all (fun n => !rs.contains n)
+
+def dumpModel (asIs : Bool) (h : Dom.Heap) (reg : List Nat) (e : Option Dom.Err) (flags : List String) : String :=
   let fuel := Dom.fuelOf h
   let ord := canonOrder (Dom.childList h) fuel reg
   let gebtn := if asIs then Dom.getElementsByTagNameAsIs else Dom.getElementsByTagName
   let nodes := ord.map (fun n =>
     s!"{kindStrM (h.kind n)}{h.name n}.{charsStr (h.text n)}:{listStr ord (Dom.childList h n)}:{optStr ord (h.parent n)}:{optStr ord (h.owner n)}" ++
     s!":{optStr ord (Dom.firstChild h n)},{optStr ord (Dom.lastChild h n)},{optStr ord (Dom.prevSibling h n)},{optStr ord (Dom.nextSibling h n)}" ++
-    s!":{charsStr (Dom.textContent fuel h n)}:{listStr ord (gebtn fuel h n 0)}:{listStr ord (gebtn fuel h n 1)}")
+    s!":{charsStr (Dom.textContent fuel h n)}:{listStr ord (gebtn fuel h n 0)}:{listStr ord (gebtn fuel h n 1)}" ++
+    s!":{optStr ord (h.attr n)}:{optStr ord (h.attr2 n)}")
   let sub := ord.take cmpN
   let cmp := sub.map (fun a => "".intercalate (sub.map (fun b =>
     if chainEnds h fuel a && chainEnds h fuel b then toString (Dom.compareDocumentPosition h a b) ++ "." else "L.")))
-  s!"{errStr e} {joinSp nodes} # {joinSp cmp}"
+  s!"{errStr e} {joinSp nodes} # {joinSp cmp} @ {joinSp flags}"
 
-def dumpSpec (m : DomTree.LL) (reg : List Nat) : String :=
+/-- `views`: pairs (fragment, element) — the fragment is held as the element's `self` attribute, the element owns the
+    list in the list model and the fragment shows the same list -/
+def dumpSpec (m : DomTree.LL) (reg : List Nat) (views : List (Nat × Nat)) : String :=
   let fuel := m.next + 2
-  let ord := canonOrder m.kids fuel reg
+  let src (n : Nat) : Nat := match views.find? (fun v => v.1 == n) with
+    | some v => v.2
+    | none => n
+  let ord := canonOrder (fun n => m.kids (src n)) fuel reg
   let nodes := ord.map (fun n =>
-    let l := m.kids n
+    let l := m.kids (src n)
     let par := DomTree.parentOf m n
     let sib := match par with
       | none => "-,-"
       | some p => s!"{optStr ord (DomTree.prevIn (m.kids p) n)},{optStr ord (DomTree.nextIn (m.kids p) n)}"
-    let t := DomTree.abs fuel m n
+    let t := DomTree.abs fuel m (src n)
     s!"{kindStrS (m.kind n)}{m.name n}.{charsStr (m.text n)}:{listStr ord l}:*:*" ++
     s!":{optStr ord l.head?},{optStr ord l.getLast?},{sib}" ++
-    s!":{charsStr t.textContent}:{listStr ord (t.elementsByName 0)}:{listStr ord (t.elementsByName 1)}")
+    s!":{charsStr t.textContent}:{listStr ord (t.elementsByName 0)}:{listStr ord (t.elementsByName 1)}:*:*")
   let sub := ord.take cmpN
   let cmp := sub.map (fun a => "".intercalate (sub.map (fun b =>
     if m.kind a = .frag ∨ m.kind b = .frag then "x." else toString (DomTree.comparePos m a b) ++ ".")))
@@ -98,6 +123,9 @@ structure St where
   err : Option Dom.Err := none
   bad : Bool := false          -- request not understood
   cyc : Bool := false          -- the structure became cyclic: the rest of the history is not executed
+  views : List (Nat × Nat) := []   -- spec ids (fragment, element): `self`-attribute fragments the list model follows
+  owners : List Nat := []          -- spec ids of elements whose list the list model owns although the code aliases it
+  flags : List String := []        -- oracle flags logged at clone / normalize time
 
 def kindOfM : Dom.Kind → DomTree.NKind
   | .doc => .doc | .elem => .elem | .text => .text | .frag => .frag
@@ -140,7 +168,8 @@ def stepRaw (asIs : Bool) (st : St) (ws : List String) : St :=
     | some as =>
       let n (k : Nat) : Nat := (as.getD k 0).toNat
       let ok (k : Nat) : Bool := decide (0 ≤ as.getD k (-1)) && decide (n k < st.regM.length)
-      let noAlias (m : DomTree.LL) (s : Nat) : Option DomTree.LL := if (st.h.attr (rM st s)).isSome then none else some m
+      let noAlias (m : DomTree.LL) (s : Nat) : Option DomTree.LL :=
+        if (st.h.attr (rM st s)).isSome && !(st.owners.contains (rS st s)) then none else some m
       match op, as.length with
       | "ap", 2 => if ok 0 && ok 1 then
           fin st (Dom.opAppend st.h (rM st (n 0)) (rM st (n 1)))
@@ -180,8 +209,12 @@ def stepRaw (asIs : Bool) (st : St) (ws : List String) : St :=
               if m.kind (rS st (n 1)) = .frag then DomTree.append? m (rS st (n 0)) (rS st (n 1)) else none)
           else { st with bad := true }
       | "nm", 1 => if ok 0 then
-          fin st (Dom.opNormalize st.h (rM st (n 0)))
-            (st.m.bind fun m => (noAlias m (n 0)).bind fun m => DomTree.normalize? m (rS st (n 0)))
+          let r := Dom.opNormalize st.h (rM st (n 0))
+          let st' := fin st r
+            (st.m.bind fun m => (noAlias m (n 0)).bind fun m =>
+              -- normalising through a `self` fragment leaves stale parent links on the replaced text nodes: outside the list model
+              if st.owners.isEmpty then DomTree.normalize? m (rS st (n 0)) else none)
+          { st' with flags := st.flags ++ [if r.2.isNone then s!"n{boolBit (noAdjacentBelow r.1 (rM st (n 0)))}" else "n-"] }
           else { st with bad := true }
       | "cl", 2 => if ok 0 then
           let deep := as.getD 1 0 != 0
@@ -190,10 +223,31 @@ def stepRaw (asIs : Bool) (st : St) (ws : List String) : St :=
           | some e => { st with err := some e }
           | none =>
             let ms := st.m.bind fun m => (noAlias m (n 0)).map fun m => DomTree.cloneLL (m.next + 2) m (rS st (n 0)) deep
-            { st with h := r.1.1, m := ms.map (·.1), regM := st.regM ++ [r.1.2], regS := st.regS ++ [(ms.map (·.2)).getD 0] }
+            let h' := r.1.1
+            let v := r.1.2
+            let s0 := rM st (n 0)
+            let fl := if deep then
+                [s!"q{boolBit (Dom.eqNode (Dom.fuelOf h') h' v s0)}{boolBit (Dom.eqNode (Dom.fuelOf h') h' s0 v)}" ++
+                 s!"d{boolBit (disjointBelow h' v s0)}"] else []
+            let cs := (ms.map (·.2)).getD 0
+            { st with h := h', m := ms.map (·.1), regM := st.regM ++ [v], regS := st.regS ++ [cs],
+                      owners := if st.owners.contains (rS st (n 0)) then st.owners ++ [cs] else st.owners,
+                      flags := st.flags ++ fl }
           else { st with bad := true }
       | "sa", 2 => if ok 0 && ok 1 then
-          { st with h := Dom.setSelfAttr st.h (rM st (n 0)) (rM st (n 1)), m := none }
+          -- inside the list model's domain when an *empty*, unused fragment becomes the child list of a childless element
+          let e := rS st (n 0)
+          let f := rS st (n 1)
+          let ms := st.m.bind fun m =>
+            if m.kind e = .elem && m.kind f = .frag && (m.kids e).isEmpty && (m.kids f).isEmpty && !m.spent f &&
+               !(st.views.any (fun v => v.1 == f)) && !(st.owners.contains e) && (st.h.attr (rM st (n 0))).isNone
+            then some { m with spent := DomTree.set m.spent f true } else none
+          { st with h := Dom.setSelfAttr st.h (rM st (n 0)) (rM st (n 1)), m := ms,
+                    views := if ms.isSome then st.views ++ [(f, e)] else st.views,
+                    owners := if ms.isSome then st.owners ++ [e] else st.owners }
+          else { st with bad := true }
+      | "st", 2 => if ok 0 && ok 1 then
+          { st with h := Dom.setAttr2 st.h (rM st (n 0)) (rM st (n 1)), m := none }
           else { st with bad := true }
       | "ex", _ => if as.all (fun a => decide (0 ≤ a) && decide (a.toNat < st.regM.length)) && as.length ≥ 1 then
           fin st (Dom.extend st.h (rM st (n 0)) ((as.drop 1).map (fun a => rM st a.toNat)))
@@ -204,7 +258,14 @@ def stepRaw (asIs : Bool) (st : St) (ws : List String) : St :=
 def step (asIs : Bool) (st : St) (ws : List String) : St :=
   if st.cyc || st.bad then st else
   let st' := stepRaw asIs st ws
-  if cyclic (Dom.childList st'.h) (Dom.fuelOf st'.h) st'.regM then { st' with cyc := true } else st'
+  -- an operation that names a fragment the list model follows as a view (receiver or argument) leaves its domain
+  let args := (ws.drop 1).map (fun w => (w.toNat?).getD 0)
+  let pos : List Nat := match ws.head? with
+    | some "in" => [0, 2] | some "si" => [0, 2] | some "pp" => [0] | some "nm" => [0] | some "cl" => [0]
+    | some "sa" => [] | _ => List.range args.length
+  let st' := if pos.any (fun k => st.views.any (fun v => v.1 == rS st (args.getD k 0)))
+    then { st' with m := none } else st'
+  if cyclic (fun n => Dom.childList st'.h n ++ (st'.h.attr2 n).toList) (Dom.fuelOf st'.h) st'.regM then { st' with cyc := true } else st'
 
 def run (asIs : Bool) (ws : List String) : String :=
   match splitAll ";" ws with
@@ -217,9 +278,9 @@ def run (asIs : Bool) (ws : List String) : String :=
     else if st2.cyc then "cyclic\t-"
     else
       let spec := match st2.m with
-        | some m => dumpSpec m st2.regS
+        | some m => dumpSpec m st2.regS st2.views
         | none => "-"
-      s!"{dumpModel asIs st2.h st2.regM st2.err}\t{spec}"
+      s!"{dumpModel asIs st2.h st2.regM st2.err st2.flags}\t{spec}"
 
 def handle : List String → String
   | "hist" :: ws => run false ws
